@@ -34,8 +34,10 @@ THEOREMS = {"Artap.Props.C19": [
     "C19_seeding_changes_only_training_set", "C19_session_event_current", "C19_session_use",
     "C19_session_request", "C19_session_other_events"]}
 AXIOMS_OK = []          # the theorems are closed under the global context
-# second tie to the code (tools/py2coq.py guard mode + coq/theories/GenProofs): the tests that enclose `self.train()` in
-# SurrogateModelPredict.evaluate_individual are translated on every run and proved equal to the model's retrain condition
+# second tie to the code (tools/py2coq.py + coq/theories/GenProofs), two specs translated on every run and proved equal to the model:
+# SurrogateGuardGen (guard mode): the tests that enclose `self.train()` in SurrogateModelPredict.evaluate_individual = the model's
+# retrain condition; SurrogateEvalGen: the whole of SurrogateModelPredict.evaluate (prediction counter, order of the hook /
+# evaluate_individual calls, the answer) = Model/Surrogate.v predict_evaluate
 from harness.core import translated_specs
 TRANSLATED = translated_specs("SurrogateGuardGen", "SurrogateEvalGen")
 TRUSTED = [
@@ -952,4 +954,4 @@ LEVEL_NOTE = ("Trusted: Coq kernel + vm_compute; the hand-written model and the 
               "the hook and the regressor are oracles. train_step = 0 raises in the code (modelled; 'returned unchanged' is stated for "
               "train_step <> 0). read_from_data_store copies every stored individual whatever its state (modelled as it is). "
               "SurrogateModelSMT shares the modelled base-class code but its own train() is not run. "
-              "Correspondence is sampled, the theorems are unbounded.")
+              "Correspondence is sampled, the theorems are unbounded. Two functions are also translated from surrogate.py on every run and proved equal to the model (the retrain guard of evaluate_individual; SurrogateModelPredict.evaluate).")
